@@ -25,7 +25,7 @@ MPI = {"schwarz": "c08x_schwarz", "uzawa_global": "c08x_uzawa_global"}
 MODULE = {"uzawa": "PrecondUzawa", "vanka": "PrecondVanka", "amavanka": "PrecondVanka", "schwarz": "PrecondSchwarz"}
 MPIRUN = ["mpirun", "--allow-run-as-root", "--oversubscribe", "--bind-to", "none", "--mca", "mpi_yield_when_idle", "1", "-np"]
 UZ_INV = "Linearity FilterLaw BlockLaw FullIsSaddleInverse LifeOK Emit"
-VK_INV = "InverseLaws GaussSeidelLaw DiagLocalLaw WholeSystemLaw Linearity ResultsExact FilterLaw AmaIsBlockFullAdd Emit"
+VK_INV = "InverseLaws GaussSeidelLaw DiagLocalLaw WholeSystemLaw Linearity ResultsExact FilterLaw MeanFilterLaw AmaIsBlockFullAdd Emit"
 SW_INV = "AverageLaw UnsharedLaw Emit"
 ALLT = ["diagonal", "lower", "upper", "full"]
 ALLK = ["ndm", "nfm", "bdm", "bfm", "nda", "nfa", "bda", "bfa"]
@@ -42,10 +42,11 @@ def cfg_uzawa(sizes, types, flavs, filts, autos=(True,), fails=("none",), pals=(
             % (st(sizes), st(types), st(flavs), st(filts), st(autos), st(fails), st(pals), nz[0], nz[1], mode, maxhist, UZ_INV))
 
 
-def cfg_vanka(layouts, nvs, nps, kinds, oms, iters, filts, pals=(1,), apat="all", nz=(0, 99), zdp=False):
+def cfg_vanka(layouts, nvs, nps, kinds, oms, iters, filts, pals=(1,), apat="all", nz=(0, 99), zdp=False, maclens=()):
     return ("SPECIFICATION Spec\nCONSTANTS Layouts = %s NVs = %s NPs = %s Kinds = %s Oms = %s Iters = %s FiltSel = %s Pals = %s APat = \"%s\" "
-            "MinNz = %d MaxNz = %d ZDP = %s\nINVARIANTS %s\nCHECK_DEADLOCK FALSE\n"
-            % (st(layouts), st(nvs), st(nps), st(kinds), st(oms), st(iters), st(filts), st(pals), apat, nz[0], nz[1], "TRUE" if zdp else "FALSE", VK_INV))
+            "MinNz = %d MaxNz = %d ZDP = %s MacLens = %s\nINVARIANTS %s\nCHECK_DEADLOCK FALSE\n"
+            % (st(layouts), st(nvs), st(nps), st(kinds), st(oms), st(iters), st(filts), st(pals), apat, nz[0], nz[1], "TRUE" if zdp else "FALSE",
+               st(maclens), VK_INV))
 
 
 def cfg_schwarz(nr, nd, flavs, failrs, igns, filts):
@@ -74,13 +75,19 @@ def jobs(tier):
         # denser patterns with filters; n = 3 windows; nodal full on one pressure dof; additive with full coverage
         for lay in ("csr", "bcsr", "pdiag", "pfull"):
             j.append(("vanka", "vk %s n2 a" % lay, cfg_vanka([lay], [2], [1, 2], ALLK, [3], [1, 2], ["none"], nz=(0, 5)), 10))
-            j.append(("vanka", "vk %s n2 b" % lay, cfg_vanka([lay], [2], [2], ALLK, [2], [2], ["vp", "v"], apat="diag", nz=(6, 8), pals=(1, 2, 3)), 4))
+            j.append(("vanka", "vk %s n2 b" % lay, cfg_vanka([lay], [2], [2], ALLK, [2], [2], ["vp", "vm", "pm"], apat="diag", nz=(6, 8), pals=(1, 2, 3)), 4))
             j.append(("vanka", "vk %s n3" % lay, cfg_vanka([lay], [3], [2], ALLK, [2], [2], ["none", "p"], apat="diag", nz=((5, 5) if lay in ("csr", "bcsr") else (4, 4))), 9))
         j.append(("vanka", "vk n1", cfg_vanka(["csr", "bcsr", "pfull"], [1], [1, 2], ALLK, [1, 2, 3], [1, 2, 3], ["none", "vp"], pals=(1, 2, 3)), 3))
         j.append(("vanka", "vk nodal m1", cfg_vanka(["csr", "bcsr", "pdiag", "pfull"], [2, 3], [1], ["nfm", "nfa", "ndm", "nda"], [1, 2], [1, 2], ["none", "v"], pals=(1, 2, 3), apat="diag"), 6))
         j.append(("vanka", "vk nodal m1 coupled", cfg_vanka(["csr", "pfull"], [3], [1], ["nfm", "nfa"], [3], [2], ["none"], pals=(1, 2), apat="coupled", nz=(3, 6)), 6))
-        j.append(("vanka", "vk additive", cfg_vanka(["csr", "bcsr", "pdiag", "pfull"], [2], [2], ["nda", "nfa", "bda", "bfa"], [1, 2], [1, 3], ["none", "p"], pals=(1, 2), apat="diag", nz=(5, 8)), 7))
-        j.append(("amavanka", "ama n<=2", cfg_vanka(["bcsr"], [1, 2], [1, 2], ["ama", "amas"], [1, 2, 3], [1, 2, 3], ["none", "vp", "v"], pals=(1, 2, 3)), 8))
+        j.append(("vanka", "vk additive", cfg_vanka(["csr", "bcsr", "pdiag", "pfull"], [2], [2], ["nda", "nfa", "bda", "bfa"], [1, 2], [1, 3], ["none", "pm"], pals=(1, 2), apat="diag", nz=(5, 8)), 7))
+        j.append(("amavanka", "ama n<=2", cfg_vanka(["bcsr"], [1, 2], [1, 2], ["ama", "amas"], [1, 2, 3], [1, 2, 3], ["none", "vp", "v", "m", "pm"], pals=(1, 2, 3)), 8))
+        # user-pushed macros: BCSR saddle-point matrix and the whole system as one CSR matrix
+        j.append(("amavanka", "ama pushed bcsr m1", cfg_vanka(["bcsr"], [2], [1], ["amap", "amaps"], [1, 3], [1, 2], ["none", "v"], pals=(1, 2), apat="all", nz=(2, 4), maclens=(2, 3)), 9))
+        j.append(("amavanka", "ama pushed bcsr 4 macros", cfg_vanka(["bcsr"], [2], [1], ["amaps"], [2], [2], ["none"], apat="diag", nz=(3, 4), maclens=(4,)), 9))
+        j.append(("amavanka", "ama pushed bcsr m2", cfg_vanka(["bcsr"], [2], [2], ["amap", "amaps"], [2], [2], ["none", "pm"], apat="diag", nz=(6, 8), maclens=(2,)), 9))
+        j.append(("amavanka", "ama pushed csr m1", cfg_vanka(["csr"], [2, 3], [1], ["amap", "amaps"], [1, 2], [1, 2], ["none", "p"], pals=(1, 2), apat="all", nz=(3, 5), maclens=(2, 3)), 9))
+        j.append(("amavanka", "ama pushed csr m2", cfg_vanka(["csr"], [2], [2], ["amap", "amaps"], [3], [2], ["none", "m", "pm"], apat="diag", nz=(6, 8), maclens=(2, 3)), 9))
         j.append(("amavanka", "ama n2 coupled", cfg_vanka(["bcsr"], [2], [2], ["ama", "amas"], [3], [2], ["none"], pals=(1, 2, 3), apat="coupled", nz=(4, 8)), 5))
         j.append(("amavanka", "ama n3", cfg_vanka(["bcsr"], [3], [2], ["ama", "amas"], [1, 3], [1, 2], ["none", "p"], apat="diag", nz=(5, 5)), 9))
         # regular local Schur complements with a zero diagonal entry (known finding C08x-invert-matrix-diagonal-pivoting)
@@ -97,14 +104,20 @@ def jobs(tier):
         j.append(("uzawa", "uz hist auto", cfg_uzawa([11], ["full"], ["mock"], ["none"], (True,), nz=(2, 2), mode="hist", maxhist=5), 1))
         j.append(("uzawa", "uz hist manual", cfg_uzawa([11], ["lower"], ["mock"], ["none"], (False,), nz=(2, 2), mode="hist", maxhist=5), 2))
         # every VankaType on two layouts at least (thorough: on all four)
-        j.append(("vanka", "vk csr", cfg_vanka(["csr"], [2], [2], ["ndm", "nfm", "bda", "bfa"], [3], [2], ["none"], pals=(1, 2), apat="coupled", nz=(4, 5)), 6))
+        # (filters: "m" / "vm" / "pm" = mean filter on the pressure, alone / with a unit-filtered velocity node / chained behind a unit filter)
+        j.append(("vanka", "vk csr", cfg_vanka(["csr"], [2], [2], ["ndm", "nfm", "bda", "bfa"], [3], [2], ["m"], pals=(1, 2), apat="coupled", nz=(4, 5)), 6))
         j.append(("vanka", "vk pdiag", cfg_vanka(["pdiag"], [2], [1, 2], ["nda", "nfa", "bdm", "bfm"], [1], [2], ["none"], apat="diag", nz=(3, 5)), 5))
         j.append(("vanka", "vk bcsr", cfg_vanka(["bcsr"], [2], [1, 2], ALLK, [2], [2], ["vp"], apat="diag", nz=(3, 4)), 5))
-        j.append(("vanka", "vk pfull", cfg_vanka(["pfull"], [2], [2], ALLK, [3], [1], ["v"], apat="diag", nz=(4, 5)), 4))
+        j.append(("vanka", "vk pfull", cfg_vanka(["pfull"], [2], [2], ALLK, [3], [1], ["vm"], apat="diag", nz=(4, 5)), 4))
         j.append(("vanka", "vk nodal m1", cfg_vanka(["csr", "pfull"], [2, 3], [1], ["nfm", "nfa", "nda"], [2], [2], ["none"], pals=(1, 2), apat="diag"), 4))
-        j.append(("vanka", "vk csr n3", cfg_vanka(["csr"], [3], [2], ["bfm", "nda"], [1], [1], ["p"], apat="diag", nz=(5, 5)), 6))
+        j.append(("vanka", "vk csr n3", cfg_vanka(["csr"], [3], [2], ["bfm", "nda"], [1], [1], ["pm"], apat="diag", nz=(5, 5)), 6))
         j.append(("vanka", "vk additive", cfg_vanka(["csr", "pdiag"], [2], [2], ["nda", "nfa", "bda", "bfa"], [2], [2], ["none"], apat="diag", nz=(5, 6)), 5))
-        j.append(("amavanka", "ama", cfg_vanka(["bcsr"], [1, 2], [1, 2], ["ama", "amas"], [3], [1, 2], ["none", "vp"], pals=(1, 2, 3), nz=(0, 8)), 6))
+        j.append(("amavanka", "ama", cfg_vanka(["bcsr"], [1, 2], [1, 2], ["ama", "amas"], [3], [1, 2], ["none", "vp", "vm"], pals=(1, 2, 3), nz=(0, 8)), 6))
+        # user-pushed macros (every sequence of 3 different macros covering all dofs): singular macros before / between / after regular
+        # ones whose local matrices have structurally empty entries; BCSR saddle-point matrix and the whole system as one CSR matrix
+        j.append(("amavanka", "ama pushed bcsr", cfg_vanka(["bcsr"], [2], [1], ["amap", "amaps"], [3], [2], ["none"], apat="diag", nz=(2, 4), maclens=(3,)), 6))
+        j.append(("amavanka", "ama pushed csr", cfg_vanka(["csr"], [2], [1], ["amap", "amaps"], [2], [2], ["none"], apat="diag", nz=(2, 4), maclens=(3,)), 4))
+        j.append(("amavanka", "ama pushed csr mean", cfg_vanka(["csr"], [2], [2], ["amaps"], [1], [2], ["pm"], apat="diag", nz=(7, 8), maclens=(2,)), 4))
         j.append(("schwarz", "sw nr=1", cfg_schwarz(1, 3, ["mock", "jacobi"], [99, 0], (True, False), (0, 1)), 1))
         j.append(("schwarz", "sw nr=2", cfg_schwarz(2, 3, ["mock", "jacobi"], [99, 1], (True, False), (0, 1)), 1))
         j.append(("schwarz", "sw nr=3", cfg_schwarz(3, 3, ["mock", "jacobi"], [99, 2], (False,), (0, 1)), 2))
@@ -197,7 +210,12 @@ def _replay(chk, part, bins, cases):
                     d["_part"] = "uzawa_global"
                     sub.append(d)
             if sub:
-                res = vlib.run_cases(bins["uzawa_global"], sub, tmo=30, max_abnormal=6, shards=2, wrapper=MPIRUN + ["1"])
+                try:
+                    res = vlib.run_cases(bins["uzawa_global"], sub, tmo=30, max_abnormal=6, shards=2, wrapper=MPIRUN + ["1"])
+                except vlib.MachineryError as e:
+                    # as for schwarz: an mpirun that dies outside a case on the loaded machine is retried once, in one job
+                    vlib.log("[c08x] mpi replay (uzawa_global) failed outside a case (%s); retrying once" % str(e).splitlines()[0][:200])
+                    res = vlib.run_cases(bins["uzawa_global"], sub, tmo=30, max_abnormal=6, shards=1, wrapper=MPIRUN + ["1"])
                 vlib.judge_results(chk, sub, res, sig, keyf=lambda c: "g" + key(c), harness=MPI["uzawa_global"], nontrivial=nontrivial)
                 chk.extra["cases_uzawa_global"] = chk.extra.get("cases_uzawa_global", 0) + len(sub)
 
@@ -261,8 +279,17 @@ def run_ext(chk):
                           "with_dof_in_two_blocks": sum(1 for c in vk if any(x >= 2 for x in c["count"])),
                           "A_couples_different_nodes": sum(1 for c in vk if sum(map(sum, c["patA"])) > c["n"]),
                           "max_local_system": max([len(b["idx"]) for c in vk for b in c["blocks"]] or [0]),
+                          "mean_filter_on_pressure": sum(1 for c in vk if c.get("mp")),
                           "apply_calls_compared": sum(len(c["tests"]) for c in vk for s in c["steps"] if s["op"] == "AP")}
-    chk.extra["amavanka"] = {"per_kind": hist(am, lambda c: c["kind"]), "with_skipped_singular_macro": sum(1 for c in am if c["kind"] == "amas" and 0 in c["mask1"]),
+    def sing_then_reg(c):        # a skipped (singular) macro that is followed by a regular one
+        mk = c["mask1"]
+        return any(mk[a] == 0 and 1 in mk[a + 1:] for a in range(len(mk)))
+    chk.extra["amavanka"] = {"per_kind": hist(am, lambda c: c["kind"]), "per_layout": hist(am, lambda c: c["lay"]),
+                             "with_skipped_singular_macro": sum(1 for c in am if c["kind"] in ("amas", "amaps") and 0 in c["mask1"]),
+                             "pushed_macros": sum(1 for c in am if c.get("pushed")),
+                             "singular_macro_followed_by_regular_macro": sum(1 for c in am if c["kind"] in ("amas", "amaps") and sing_then_reg(c)),
+                             "several_singular_macros": sum(1 for c in am if c["kind"] in ("amas", "amaps") and c["mask1"].count(0) >= 2),
+                             "mean_filter": sum(1 for c in am if c.get("mp")),
                              "matrix_entries_compared": sum(2 * len(c["ama1"]) ** 2 for c in am),
                              "apply_calls_compared": sum(len(c["tests"]) for c in am for s in c["steps"] if s["op"] == "AP")}
     chk.extra["schwarz"] = {"per_ranks": hist(sw, lambda c: c["nr"]), "per_flavour": hist(sw, lambda c: c["flav"]),
@@ -272,7 +299,8 @@ def run_ext(chk):
     rule = ("C08 extension: every initial state of spec/PrecondUzawa.tla (all pattern pairs of B (n x m) and D (m x n) within the size / entry-count "
             "bounds of the tier, B and D with independent values, UzawaType, inner-solver flavour, filter selection, auto_init_s, failing inner solver) "
             "with the canonical life-cycle history (or every history of bounded length), of spec/PrecondVanka.tla (all node patterns of A, B, D within "
-            "the bounds x layout x VankaType / AmaVanka x omega x iterations x filters, restricted by TLC to the exact domain of Math::invert_matrix) "
+            "the bounds x layout x VankaType / AmaVanka (deduced macros, or every sequence of MacLens different user-pushed macros covering all dofs) x omega x "
+            "iterations x filters (unit / mean / chains), restricted by TLC to the exact domain of Math::invert_matrix) "
             "with its sweep (one TLC action per block step) and of spec/PrecondSchwarz.tla (every decomposition of ND dofs over NR ranks x local "
             "solver x failing rank x ignore_status x filter); each apply on unit vectors, a generic vector g and 2g - e1; "
             "non-trivial = B and D both have entries (Uzawa), a local system of dimension >= 2 (Vanka), a dof shared by two ranks (Schwarz)")
@@ -290,7 +318,11 @@ def run_ext(chk):
         "(zero row/column): diag variants must throw VankaFactorError, AmaVanka with skip_singular must skip the macro",
         "C08x: Vanka needs at least one stored entry in D (and in B for block variants / BCSR); AmaVanka needs every dof in a macro (XASSERT)",
         "C08x: UzawaPrecond for LAFEM containers and - mock inner solvers, one process - its Global::Matrix specialisation; SchwarzPrecond with Global::Filter<UnitFilter>; "
-        "AmaVanka on SaddlePointMatrix<BCSR> with deduced macros only (no TupleMatrix / scalar matrices with pushed macros, no VoxelAmaVanka)"]
+        "AmaVanka on SaddlePointMatrix<BCSR> (deduced and user-pushed macros) and on the whole saddle-point system stored as one SparseMatrixCSR "
+        "(pushed macros; pressure-pressure block structurally empty); no TupleMatrix, no VoxelAmaVanka; pushed macros on the BCSR layout need a stored "
+        "entry in B and in D and one macro that couples a velocity node with a pressure dof (SparseMatrixBCSR::val() of an empty block is outside the API)",
+        "C08x: filters of Vanka / AmaVanka: unit filter on a velocity node, on the pressure the chain UnitFilter ; MeanFilter with non-proportional primal (1,1,..) "
+        "and dual (3,-1,2) vector (m >= 2); Uzawa: MeanFilter (1,..) / (1,3,4) on the pressure; Schwarz: unit filters only"]
     return sum(percase.values())
 
 
